@@ -514,7 +514,7 @@ func main() {
 		os.WriteFile(f, append(b, '\n'), 0o644)
 		defer os.Remove(f)
 		if in.Gen == "size" {
-			return runWorker(plShared, f, 0, 1, deadline, noProgress)
+			return runWorker(plShared, f, 0, 1, 10*time.Second, noProgress)
 		}
 		return runWorker(pl, f, 0, 1, deadline, noProgress)
 	}
@@ -534,7 +534,9 @@ func main() {
 				gen++
 				shPool, shDeadline := pl, firstPass
 				if k >= nw {
-					shPool, shDeadline = plShared, deadline // the flush interval of shared-batch workers is 250 ms
+					// flush interval of shared-batch workers: 100 ms; a refused block is retried 10 times (repository
+					// default), so a request may legitimately take a second or more
+					shPool, shDeadline = plShared, 10*time.Second
 				}
 				wr := runWorker(shPool, files[k], shards[k][pos].Offset, -1, shDeadline, noProgress)
 				mu.Lock()
